@@ -150,7 +150,7 @@ func (d *diffCase) observe(fs lib.FuncSet) diffObs {
 	o.Lib = lib.Retrieve(d.Text, src, fs.Config(false))
 	o.After = lib.JS(src)
 	src2 := lib.Decode(d.Doc, d.UseNum)
-	ev := &spec.Evaluator{F: fs.Spec()}
+	ev := &spec.Evaluator{F: fs.Spec(), MemoRoot: true}
 	o.Spec, o.Fails = ev.Eval(d.P, src2, src2)
 	if len(o.Spec) == 0 {
 		o.Cands = specCandidates(o.Fails, d.Texts)
